@@ -14,8 +14,9 @@ class C12(Prop):
         la = [execgen.mk_latch(rng.choice([1, 2, 4]), rng.randint(0, 9), rng.choice([0, 5, 15, 105])) for _ in range(30 if tier == "quick" else 600)]
         return [Suite("status", execgen.HEADER, st), Suite("latch", execgen.HEADER, la), Suite("exec", execgen.HEADER, [execgen.gen_case(rng, maxL=4) for _ in range(n)]),
                 # Multi executors: 1-4 listeners, one of them removed individually (flush_and_cancel_executor) between two batches of events,
-                # the others ended all at once by Multi::close (five non-log Multi kinds; oracle only)
-                Suite("multi_executors(oracle only)", execgen.HEADER, [execgen.gen_mcase_removal(rng) for _ in range(n // 2)], compare=False),
+                # the others ended all at once by Multi::close (five non-log Multi kinds; judged by the oracle, and - the cases without
+                # an individual removal - compared field by field with MExec.v: one callback per executor, after its last item, status StreamEnded)
+                Suite("multi_executors", execgen.HEADER, [execgen.gen_mcase_removal(rng) for _ in range(n // 2)]),
                 # the log channel's old / new pair of executors, sequential_transition on and off (oracle only)
                 Suite("log_old_new_executors(oracle only)", execgen.HEADER, [execgen.gen_logcase(rng) for _ in range(n // 3)], compare=False)]
     def oracle(self, case, recs):
